@@ -332,6 +332,63 @@ fn evaluated_chains(ctx: &Ctx) -> Vec<(Case, bool)> {
     out
 }
 
+// Parentheses override grouping in what is evaluated too: random binary trees
+// over `+` and `-` with operands near the 64-bit limits, written with exactly
+// the parentheses the tree needs; the value (or the overflow) computed here
+// step by step in the order of the tree.
+fn parenthesised_sums(ctx: &Ctx) -> Vec<(Case, bool)> {
+    enum T { Leaf(i64), Node(bool, Box<T>, Box<T>) }
+    fn build(t: &mut sdmodel::tape::Tape, n: usize) -> T {
+        if n == 1 {
+            let v = match t.pick(5) {
+                0 => i64::MAX - t.range(0, 40),
+                1 => -(i64::MAX - t.range(0, 40)),
+                2 => t.range(-50, 50),
+                3 => (1i64 << 62) + t.range(-5, 5),
+                _ => t.range(0, 20),
+            };
+            return T::Leaf(v);
+        }
+        let l = 1 + t.pick(n - 1);
+        T::Node(t.chance(1, 2), Box::new(build(t, l)), Box::new(build(t, n - l)))
+    }
+    fn eval(x: &T) -> Option<i64> {
+        match x {
+            T::Leaf(v) => Some(*v),
+            T::Node(plus, l, r) => { let (a, b) = (eval(l)?, eval(r)?); if *plus { a.checked_add(b) } else { a.checked_sub(b) } },
+        }
+    }
+    // Left operands need no parentheses (same tier groups left to right);
+    // a right operand that is itself a node does. Literals go through
+    // variables so that `- -5` never arises.
+    fn show(x: &T, names: &mut Vec<(String, i64)>, right: bool) -> String {
+        match x {
+            T::Leaf(v) => { let n = format!("v{}", names.len()); names.push((n.clone(), *v)); n },
+            T::Node(plus, l, r) => {
+                let s = format!("{} {} {}", show(l, names, false), if *plus { "+" } else { "-" }, show(r, names, true));
+                if right { format!("({s})") } else { s }
+            },
+        }
+    }
+    let mut out = vec![];
+    let mut t = sdmodel::tape::tape_from_seed(ctx.sub_seed("parenthesised_sums", 0), 400_000);
+    for _ in 0..ctx.n(1_500, 60_000) {
+        let n = 2 + t.pick(7);
+        let tree = build(&mut t, n);
+        let mut names = vec![];
+        let expr = show(&tree, &mut names, false);
+        let decls: String = names.iter().map(|(n, v)| format!("{n} := {}\n", crate::props::common::int_src(*v))).collect();
+        let src = format!("{decls}print(\"go\")\nprint({expr})\n");
+        let e = match eval(&tree) {
+            Some(v) => Expect::ok(format!("go\n{v}\n").into_bytes()),
+            None => Expect::err(b"go\n".to_vec()),
+        };
+        ctx.label(if eval(&tree).is_some() { "parenthesised sum: value" } else { "parenthesised sum: overflow in some group" });
+        out.push((Case{property: "C08".into(), kind: "parenthesised_sum".into(), srcs: vec![src.into_bytes()], pred: Pred::Expect(e), note: format!("{n} operands of + / - grouped by parentheses")}, expr.contains('(')));
+    }
+    out
+}
+
 fn minus_cases() -> Vec<(Case, bool)> {
     let a = || var("a");
     let list: Vec<(&str, Expr)> = vec![
@@ -428,6 +485,7 @@ pub fn run(ctx: &Ctx) {
     ctx.judge_all(minus_cases(), Via::Cli, None);
     ctx.judge_all(long_cases(), Via::Cli, None);
     ctx.judge_all(evaluated_chains(ctx), Via::Fast, None);
+    ctx.judge_all(parenthesised_sums(ctx), Via::Fast, None);
     let n = ctx.n(100_000, 2_000_000);
     ctx.proptest_tapes("trees", n, 300, Via::Cli, None, |t| {
         let dd = 2 + t.pick(6);
